@@ -79,7 +79,8 @@ type c12Case struct {
 	Shape int    `json:"slice_shape"`
 	Lens  [5]int `json:"lens"`
 	Sub   int    `json:"variant"`
-	Then  string `json:"then,omitempty"` // a second operation run afterwards (history of length 2)
+	Then  string `json:"then,omitempty"`  // a second operation run afterwards (history of length 2)
+	Then2 string `json:"then2,omitempty"` // a third one (history of length 3, thorough tier)
 }
 
 var c12Lens = []int{-1, 0, 1, 7, 8, 9, 127, 128, 129, 200}
@@ -379,6 +380,13 @@ func (e *c12Env) run(c c12Case) (obs, bad string) {
 			return obs, b
 		}
 	}
+	if c.Then2 != "" {
+		pn = step(c.Then2)
+		obs = strings.Join(results, ";")
+		if b := check("after " + c.Op + " then " + c.Then + " then " + c.Then2); b != "" {
+			return obs, b
+		}
+	}
 	return obs, ""
 }
 
@@ -441,6 +449,28 @@ func c12(r *ev.Run) {
 			}
 		}
 	}
+	// thorough: histories of length 3 (every ordered triple of operations), all four slice shapes for the pairs
+	if r.Thorough() {
+		for _, a := range ops {
+			for _, b := range ops {
+				for _, c := range ops {
+					for sub := 0; sub < 3; sub++ {
+						l := base
+						l[sub%5] = c12Lens[(sub*3+len(a)+len(c))%len(c12Lens)]
+						runCase(c12Case{Op: a, Shape: 1 + sub%2, Lens: l, Sub: sub + len(b), Then: b, Then2: c})
+						trans++
+					}
+				}
+				for shapeI := 0; shapeI < 4; shapeI++ {
+					for _, ln := range c12Lens {
+						l := base
+						l[(len(a)+len(b))%5] = ln
+						runCase(c12Case{Op: a, Shape: shapeI, Lens: l, Sub: ln + 2, Then: b})
+					}
+				}
+			}
+		}
+	}
 	r.Eval(n)
 	r.State(int64(len(states)))
 	r.Transition(trans)
@@ -448,6 +478,6 @@ func c12(r *ev.Run) {
 	r.Set("operations", ops)
 	r.Sample(c12Case{Op: "GenerateOCRA", Shape: 1, Lens: [5]int{8, 7, 20, 5, 8}, Sub: 0})
 	r.Sample(c12Case{Op: "GenerateTOTP", Shape: 1, Lens: base, Sub: 1, Then: "ValidateHOTP"})
-	r.Rule("every operation taking slices, pointers or structs x slice shape {len==cap, spare capacity filled with canaries, sub-slice in the middle of a canary array} x every length class {nil,0,1,7,8,9,127,128,129,200} of each field x parameter variants (caller struct, DefaultHOTPParam / DefaultTOTPParam passed themselves, nil); every ordered pair of operations as a history; oracle after every call: all backing arrays byte-identical incl. spare capacity, deep copies of arguments identical, exported defaults / registry / lookup tables unchanged, retained results unchanged after the caller scribbles its arguments; state = digest of all package-level variables, transition = one real call")
+	r.Rule("every operation taking slices, pointers or structs x slice shape {len==cap, spare capacity filled with canaries, sub-slice in the middle of a canary array} x every length class {nil,0,1,7,8,9,127,128,129,200} of each field x parameter variants (caller struct, DefaultHOTPParam / DefaultTOTPParam passed themselves, nil); every ordered pair of operations as a history (thorough: every ordered triple, and the pairs in all four slice shapes x all length classes); oracle after every call: all backing arrays byte-identical incl. spare capacity, deep copies of arguments identical, exported defaults / registry / lookup tables unchanged, retained results unchanged after the caller scribbles its arguments; state = digest of all package-level variables, transition = one real call")
 	r.Assume("results that share immutable string memory with arguments are fine; only observable modification counts")
 }
